@@ -7,6 +7,11 @@ documents (G1) over a generated schema; parsed with and without locations.
   metamorphic  the ordered message list is unchanged by print_ast -> parse, by a re-layout of the
                source, and by adding descriptions to operations / fragments / variable definitions
   idempotent   a second call returns the same list; document and schema are not modified
+  introspection documents over the introspection types (__schema / __type with nested fields, interfaces,
+               possibleTypes, inputFields, ofType, through inline fragments, named fragments and fragment
+               cycles, to list depth 5): the stratum in which MaxIntrospectionDepthRule reports and skips;
+               the rule pool of the subsets also holds NoDeprecatedCustomRule and
+               NoSchemaIntrospectionCustomRule
   limit        with max_errors = n: at most n errors plus one abort notice, which is present iff the
                unlimited list is longer than n, and the first n equal the unlimited list's prefix
 """
@@ -79,6 +84,9 @@ def eval_case(case):
     except Exception:  # noqa: BLE001
         return vs, 0, False
     rules = list(specified_rules)
+    if case.get("custom_rules"):
+        from graphql.validation import NoDeprecatedCustomRule, NoSchemaIntrospectionCustomRule
+        rules += [NoDeprecatedCustomRule, NoSchemaIntrospectionCustomRule]
     before = g1.sig(doc)
     n = 0
     try:
@@ -185,9 +193,69 @@ def eval_case(case):
     return vs, n, nontrivial
 
 
+# introspection documents -------------------------------------------------------------------
+
+_T_LISTS = ["fields", "interfaces", "possibleTypes", "inputFields"]
+_T_LEAVES = ["name", "kind", "description", "specifiedByURL", "isOneOf", "__typename"]
+
+
+def _fld(name, sel=None, args=None, alias=None):
+    return {"k": "field", "alias": alias, "n": name, "args": args or [], "dirs": [], "sel": sel}
+
+
+def g_introspection_tree(c):
+    frags = {}
+
+    def type_sel(depth, on="__Type"):
+        """selections on __Type / __Field / __InputValue (on = current introspection type)"""
+        out = []
+        for _ in range(c.count(1, 3)):
+            k = c.pick(10)
+            if depth <= 0 or k <= 1:
+                out.append(_fld(c.choose(_T_LEAVES if on == "__Type" else ["name", "description", "__typename"])))
+            elif on != "__Type":
+                out.append(_fld("type", type_sel(depth - 1)))
+                if on == "__Field" and c.chance(80):
+                    out.append(_fld("args", type_sel(depth - 1, "__InputValue"),
+                                    args=[["includeDeprecated", {"k": "bool", "v": True}]] if c.chance(100) else []))
+            elif k <= 6:
+                n = c.choose(_T_LISTS)
+                nxt = {"fields": "__Field", "inputFields": "__InputValue"}.get(n, "__Type")
+                args = [["includeDeprecated", {"k": "bool", "v": bool(c.pick(2))}]] \
+                    if n in ("fields", "inputFields") and c.chance(80) else []
+                out.append(_fld(n, type_sel(depth - 1, nxt), args=args,
+                                alias=c.choose(["x", "fields", None, None])))
+            elif k == 7 and c.chance(128):
+                out.append(_fld("ofType", type_sel(depth - 1)))
+            elif k <= 8:
+                out.append({"k": "inline", "on": on if c.chance(170) else None, "dirs": [],
+                            "sel": type_sel(depth - 1, on)})
+            else:
+                name = f"F{on.strip('_')}{c.pick(3)}"
+                if name not in frags:
+                    frags[name] = None  # reserve: a spread inside its own body makes a cycle
+                    frags[name] = {"k": "frag", "desc": None, "n": name, "vars": [], "on": on, "dirs": [],
+                                   "sel": type_sel(depth - 1, on)}
+                out.append({"k": "spread", "n": name, "args": None, "dirs": []})
+        return out
+
+    roots = []
+    for i in range(c.count(1, 2)):
+        if c.chance(128):
+            roots.append(_fld("__schema", [_fld(c.choose(["types", "queryType", "mutationType"]),
+                                                type_sel(c.count(2, 6)))], alias=f"s{i}"))
+        else:
+            roots.append(_fld("__type", type_sel(c.count(2, 6)), alias=f"t{i}" if c.chance(230) else None,
+                              args=[["name", {"k": "str", "v": c.choose(["Query", "T0", "Nope"])}]]))
+    op = {"k": "op", "short": True, "sel": roots} if c.chance(128) else \
+        {"k": "op", "short": False, "desc": None, "op": "query", "n": "I", "vars": [], "dirs": [], "sel": roots}
+    return {"k": "doc", "defs": [op] + [f for f in frags.values() if f], "frag_args": False,
+            "dir_on_dir": False}
+
+
 def g_case(c):
     m = g2.g_model(c)
-    k = c.pick(10)
+    k = c.pick(11)
     stratum = "valid"
     if k <= 2:
         doc = g3.g_document(c, m, depth=3)
@@ -204,12 +272,16 @@ def g_case(c):
     elif k <= 7:
         tree = g3.g_document(c, m, depth=3, collide=150)["tree"]
         stratum = "colliding"
+    elif k == 10:
+        tree = g_introspection_tree(c)
+        stratum = "introspection"
     else:
         tree = g1.g_document(c, mode="exec", max_defs=3)
         tree["frag_args"] = False
         stratum = "grammar-random"
     return {"model": dict(m), "tree": tree, "layout": c.ints(4) if c.chance(100) else [],
             "layout2": c.ints(12), "no_location": c.chance(80), "stratum": stratum,
+            "custom_rules": stratum == "introspection" or c.chance(60),
             "subsets": [c.ints(c.count(2, 6), 64) for _ in range(2)]}
 
 
